@@ -107,10 +107,10 @@ impl Timestamp {
     pub fn format(&self, format: TimestampFormat, w: &mut impl io::Write) -> Result<(), FormatTimestampError> {
         match format {
             TimestampFormat::DateTime => {
-                self.0.format_into(w, RFC3339)?;
+                self.0.to_offset(time::UtcOffset::UTC).format_into(w, RFC3339)?;
             }
             TimestampFormat::HttpDate => {
-                self.0.format_into(w, RFC1123)?;
+                self.0.to_offset(time::UtcOffset::UTC).format_into(w, RFC1123)?;
             }
             TimestampFormat::EpochSeconds => {
                 let val = self.0.unix_timestamp_nanos();
